@@ -178,15 +178,35 @@ FILE_HEAD = b'#diffx: version=1.0'
 AFTER = b'#..file:\n#...meta: length=3\n{}\n'
 
 
-def _file(pad, content):
-    head = FILE_HEAD + (b', x=' + b'a' * (pad - 4) if pad >= 5 else b'')
-    pre = head + b'\n#.change:\n#..file:\n#...meta: length=3\n{}\n#...diff: length=%d\n' % len(content)
-    return pre, AFTER
+LAYOUTS = {  # name -> (newline of header lines, index of the padded header among the records)
+    'lf/first': (b'\n', 0), 'lf/change': (b'\n', 1), 'lf/diff': (b'\n', 4),
+    'crlf/first': (b'\r\n', 0), 'crlf/change': (b'\r\n', 1), 'crlf/diff': (b'\r\n', 4),
+}
 
 
-def ob_bytes(ctx, ks, pads, N):
-    """whole reader, byte level: first header padded, block size k, symbolic diff content"""
+def _file(pad, content, layout='lf/first'):
+    """(bytes before the content, bytes after); one header carries an unknown option sized so that the header is
+    `pad` bytes longer; content sections are framed by length alone, so only header lines carry the layout's newline"""
+    nl, where = LAYOUTS[layout]
+    heads = [FILE_HEAD, b'#.change:', b'#..file:', b'#...meta: length=3', b'#...diff: length=%d' % len(content)]
+    if pad >= 5:
+        h = heads[where]
+        heads[where] = h + (b' ' if h.endswith(b':') else b', ') + b'x=' + b'a' * (pad - (3 if h.endswith(b':') else 4))
+    pre = heads[0] + nl + heads[1] + nl + heads[2] + nl + heads[3] + nl + b'{}\n' + heads[4] + nl
+    return pre, AFTER.replace(b'#..file:\n', b'#..file:' + nl).replace(b'length=3\n', b'length=3' + nl)
+
+
+def _pad_value(pad, layout):
+    if pad < 5:
+        return None
+    _nl, where = LAYOUTS[layout]
+    return 'a' * (pad - (4 if where in (0, 4) else 3))
+
+
+def ob_bytes(ctx, ks, pads, N, layouts=('lf/first',)):
+    """whole reader, byte level: one header padded, block size k, symbolic diff content"""
     from pydiffx.reader import DiffXReader
+    layout = ctx.pick('layout', list(layouts))
     k = ctx.pick('k', ks)
     pad = ctx.pick('pad', pads)
     n = ctx.choose(1, N, 'n')
@@ -195,10 +215,10 @@ def ob_bytes(ctx, ks, pads, N):
     for e in el[:-1]:
         ctx.assume(z3.And(e != 10, e != 13))
     ctx.assume(el[-1] == 10)
-    pre, post = _file(pad, el)
+    pre, post = _file(pad, el, layout)
     data = mk_seq(tuple(pre) + tuple(el) + tuple(post), bytes)
     rd = DiffXReader(SymStream(data))
-    wit = lambda m: {'data': model_bytes(m, data), 'k': k, 'content': model_bytes(m, content), 'pad': pad}
+    wit = lambda m: {'data': model_bytes(m, data), 'k': k, 'content': model_bytes(m, content), 'pad': pad, 'layout': layout}
     try:
         with forced_block(rd, k):
             recs = list(rd)
@@ -213,13 +233,15 @@ def ob_bytes(ctx, ks, pads, N):
     props = [('diff-content', lift(content).eq_cond(recs[4].get('diff'))),
              ('diff-length', recs[4]['options'].get('length') == n),
              ('lines', [r['line'] for r in recs] == [0, 1, 2, 3, 5, 7, 8]),
-             ('pad-option', (recs[0]['options'].get('x') == 'a' * (pad - 4)) if pad >= 5 else ('x' not in recs[0]['options']))]
-    return verdict(ctx, props, witness=wit, sample=lambda m: {'k': k, 'pad': pad, 'content': model_bytes(m, content)})
+             ('pad-option', recs[LAYOUTS[layout][1]]['options'].get('x') == _pad_value(pad, layout)),
+             ('no-stray-option', all('x' not in r['options'] for i, r in enumerate(recs) if i != LAYOUTS[layout][1] or pad < 5))]
+    return verdict(ctx, props, witness=wit, sample=lambda m: {'layout': layout, 'k': k, 'pad': pad, 'content': model_bytes(m, content)})
 
 
-def ob_public(ctx, pads, N):
+def ob_public(ctx, pads, N, layouts=('lf/first',)):
     """public API only (the implementation's own block size): header padded through every alignment"""
     from pydiffx.reader import DiffXReader
+    layout = ctx.pick('layout', list(layouts))
     pad = ctx.pick('pad', pads)
     n = ctx.choose(1, N, 'n')
     content = sym_bytes(ctx, 'c', n)
@@ -227,9 +249,9 @@ def ob_public(ctx, pads, N):
     for e in el[:-1]:
         ctx.assume(z3.And(e != 10, e != 13))
     ctx.assume(el[-1] == 10)
-    pre, post = _file(pad, el)
+    pre, post = _file(pad, el, layout)
     data = mk_seq(tuple(pre) + tuple(el) + tuple(post), bytes)
-    wit = lambda m: {'data': model_bytes(m, data), 'k': None, 'content': model_bytes(m, content), 'pad': pad}
+    wit = lambda m: {'data': model_bytes(m, data), 'k': None, 'content': model_bytes(m, content), 'pad': pad, 'layout': layout}
     try:
         recs = list(DiffXReader(SymStream(data)))
     except PathTimeout:
@@ -238,8 +260,9 @@ def ob_public(ctx, pads, N):
         return viol('raised:%s' % type(e).__name__, wit(ctx.model()))
     if [r['section'] for r in recs] != ['diffx', '.change', '..file', '...meta', '...diff', '..file', '...meta']:
         return viol('records', wit(ctx.model()))
-    return verdict(ctx, [('diff-content', lift(content).eq_cond(recs[4].get('diff')))], witness=wit,
-                   sample=lambda m: {'pad': pad, 'content': model_bytes(m, content)})
+    return verdict(ctx, [('diff-content', lift(content).eq_cond(recs[4].get('diff'))),
+                         ('pad-option', recs[LAYOUTS[layout][1]]['options'].get('x') == _pad_value(pad, layout))], witness=wit,
+                   sample=lambda m: {'layout': layout, 'pad': pad, 'content': model_bytes(m, content)})
 
 
 class PeekStream(SymStream):
@@ -329,7 +352,7 @@ def obligations(tier):
     quick = tier == 'quick'
     knob = block_knob()
     if hasattr(DiffXReader, '_read_until') and knob is not None:
-        U = 4 if quick else 9
+        U = 4 if quick else 12
         obs.append(Ob('read_until[abstract]', ob_read_until, dict(U=U), must_reach=['DiffXReader._read_until'], allow_cut=True, may_decline=True,
                       desc='real _read_until on the interval-abstract stream; block size k>=1, stream length, start '
                            'and delimiter position are unbounded symbolic integers; at most %d reads' % U,
@@ -341,20 +364,22 @@ def obligations(tier):
         ks = [1, 2, 3, 4, 5, 7, 8, 16, 19, 20, 21, 95, 96, 97, 100000] if quick else \
             list(range(1, 41)) + [63, 64, 65, 95, 96, 97, 191, 192, 193, 100000]
         pads = list(range(0, 30)) if quick else list(range(0, 200))
-        obs.append(Ob('reader[bytes,k]', ob_bytes, dict(ks=ks, pads=pads, N=3 if quick else 4),
+        lays = ['lf/first', 'crlf/change', 'crlf/diff'] if quick else sorted(LAYOUTS)
+        obs.append(Ob('reader[bytes,k]', ob_bytes, dict(ks=ks, pads=pads, N=2 if quick else 3, layouts=lays),
                       must_reach=['DiffXReader._read_until', 'DiffXReader._read_content'], path_timeout=8,
-                      desc='whole reader on a 2-file skeleton; first header padded by an unknown option; read-ahead '
+                      desc='whole reader on a 2-file skeleton; one header (first / .change / the diff header right before the '
+                           'content, LF or CRLF header lines) padded by an unknown option; read-ahead '
                            'block size forced to k (through %s %s of the current source); diff content symbolic' % knob,
-                      bounds={'k': ks, 'pad': [pads[0], pads[-1]], 'content_len': [1, 3 if quick else 4]}))
+                      bounds={'k': ks, 'pad': [pads[0], pads[-1]], 'content_len': [1, 2 if quick else 3], 'layouts': lays}))
     else:
         obs.append(('skipped', 'reader[bytes,k]', 'no parameter / constant found through which the read-ahead block '
                     'size can be varied; the public obligations below run with the implementation\'s own block size'))
     pads = list(range(0, 30)) + list(range(70, 125)) if quick else list(range(0, 300))
-    obs.append(Ob('reader[public]', ob_public, dict(pads=pads, N=3 if quick else 4),
+    obs.append(Ob('reader[public]', ob_public, dict(pads=pads, N=2 if quick else 3, layouts=sorted(LAYOUTS)),
                   must_reach=['DiffXReader.iter_sections'], path_timeout=8,
-                  desc='public iterator with the implementation\'s own block size; first header padded through every '
-                       'alignment in the stated range; diff content symbolic',
-                  bounds={'pad': [pads[0], pads[-1]], 'content_len': [1, 3 if quick else 4]}))
+                  desc='public iterator with the implementation\'s own block size; one header (first / .change / diff header, '
+                       'LF or CRLF header lines) padded through every alignment in the stated range; diff content symbolic',
+                  bounds={'pad': [pads[0], pads[-1]], 'content_len': [1, 2 if quick else 3], 'layouts': sorted(LAYOUTS)}))
     ppads = [0, 3, 60, 80, 90] if quick else [0, 1, 2, 3, 30, 60, 70, 80, 85, 90, 95, 100, 180]
     obs.append(Ob('reader[peekable stream]', ob_peekable, dict(pads=ppads, N=2), must_reach=['DiffXReader.iter_sections'],
                   path_timeout=8, max_paths=200000,
